@@ -13,6 +13,7 @@
   and the examples at the end show what the model does on them.
 -/
 import XsVerif.Lemmas.Staged
+import XsVerif.Lemmas.Rebuild
 
 namespace XsVerif.Props.C09
 open XsVerif.Staged
@@ -212,6 +213,213 @@ theorem spellings_same_key (dir : List String) (f x : String) (hd : ∀ s ∈ di
 theorem include_once (docs : List Doc) (n : Nat) (root : List String) :
     (includeGo docs n [] [root]).Nodup :=
   includeGo_nodup docs n [] [root] List.nodup_nil
+
+/-! ### building twice: the registries beside the six staged maps (Model/Rebuild.lean)
+
+  `maps.identities`, `maps.substitution_groups`, the `_store` of the staged maps and the cached views of the
+  schemas are written by every build.  Objects carry the number of the build that created them
+  (generation).  `faithful` is the `clear()` of /repo: it empties all of them. -/
+section Rebuild
+open XsVerif.Rebuild
+
+/-- **Building twice (any number of times).**  After ANY history of builds of one maps object the registries
+    are exactly those of ONE fresh build of the last declarations: nothing of the history is left. -/
+theorem rebuild_history_irrelevant (hist : List (List Req)) (reqs : List Req) :
+    run faithful (hist ++ [reqs]) = rebuild faithful hist.length reqs Rebuild.empty := by
+  simpa [run] using runFrom_last reqs hist 0 Rebuild.empty
+
+/-- Every object held by a registry after any history is an object of the LAST build, and so are the
+    cached views handed out by the schemas. -/
+theorem rebuild_all_current (hist : List (List Req)) (reqs : List Req) :
+    AllGen hist.length (run faithful (hist ++ [reqs])) ∧
+    (run faithful (hist ++ [reqs])).views = some hist.length := by
+  rw [rebuild_history_irrelevant]
+  have hb := build_allGen hist.length reqs (clear faithful Rebuild.empty) (empty_allGen _)
+  obtain ⟨t1, t2, t3, _⟩ := touch_fields hist.length (build hist.length reqs (clear faithful Rebuild.empty))
+  refine ⟨⟨?_, ?_, ?_⟩, ?_⟩
+  · unfold rebuild; rw [t1]; exact hb.store
+  · unfold rebuild; rw [t2]; exact hb.idents
+  · unfold rebuild; rw [t3]; exact hb.subst
+  · unfold rebuild touch
+    rw [build_views]
+    rfl
+
+/-- A keyref built after any history is bound to a key/unique object of the last build, whether `refer`
+    is found among the constraints of its own element or through `maps.identities`. -/
+theorem keyref_binding_current (hist : List (List Req)) (reqs : List Req) (own : Bool) (refer : String) (b : Nat)
+    (h : Rebuild.resolve own hist.length (run faithful (hist ++ [reqs])) refer = some b) : b = hist.length := by
+  unfold Rebuild.resolve at h
+  cases own with
+  | true => simpa using h.symm
+  | false =>
+    simp only [Bool.false_eq_true, if_false, Option.map_eq_some_iff] at h
+    obtain ⟨e, he, hb⟩ := h
+    rw [← hb]
+    exact (rebuild_all_current hist reqs).1.idents _ (lookup_mem _ _ _ he)
+
+/-- Hence, after any history, the "value not found" errors of a keyref on any instance are exactly its
+    dangling references (the verdict clause of the property for registry-resolved constraints). -/
+theorem keyref_errors_after_any_history (hist : List (List Req)) (reqs : List Req) (own : Bool)
+    (refer : String) (b : Nat) (keys refs : List String)
+    (h : Rebuild.resolve own hist.length (run faithful (hist ++ [reqs])) refer = some b) :
+    notFound b hist.length keys refs = refs.filter (fun r => !keys.contains r) := by
+  rw [keyref_binding_current hist reqs own refer b h]
+  simp [notFound]
+
+/-- **What a build registers does not depend on any order** (order of the declarations, of the documents,
+    of the on-demand construction): the registries are this order-free function of the SET of requests. -/
+theorem registry_spec (g : Nat) (reqs : List Req) (hf : Functional reqs) :
+    (∀ n, (build g reqs Rebuild.empty).store.lookup n = if .glob n ∈ reqs then some g else none) ∧
+    (∀ n node, (build g reqs Rebuild.empty).idents.lookup n = some ⟨node, g⟩ ↔ .ident n node ∈ reqs) ∧
+    (∀ h x g', MemberOf (build g reqs Rebuild.empty).subst h (x, g') ↔ (g' = g ∧ .subst h x ∈ reqs)) := by
+  refine ⟨?_, ?_, ?_⟩
+  · intro n; rw [build_store_lookup]; rfl
+  · intro n node
+    rw [build_idents_lookup, ← firstNode_iff reqs hf n node]
+    show Option.map _ (firstNode reqs n) = _ ↔ _
+    cases firstNode reqs n with
+    | none => simp
+    | some nd => simp
+  · intro h x g'
+    rw [build_subst]
+    constructor
+    · rintro (⟨ms, hm, _⟩ | r)
+      · simp [Rebuild.empty] at hm
+      · exact r
+    · exact Or.inr
+
+theorem registry_perm_invariant (g : Nat) (r₁ r₂ : List Req) (hp : r₁.Perm r₂) (hf : Functional r₁) :
+    (∀ n, (build g r₁ Rebuild.empty).store.lookup n = (build g r₂ Rebuild.empty).store.lookup n) ∧
+    (∀ n, (build g r₁ Rebuild.empty).idents.lookup n = (build g r₂ Rebuild.empty).idents.lookup n) ∧
+    (∀ h y, MemberOf (build g r₁ Rebuild.empty).subst h y ↔ MemberOf (build g r₂ Rebuild.empty).subst h y) := by
+  have hf₂ : Functional r₂ := fun n a b ha hb => hf n a b (hp.mem_iff.mpr ha) (hp.mem_iff.mpr hb)
+  refine ⟨?_, ?_, ?_⟩
+  · intro n
+    rw [(registry_spec g r₁ hf).1, (registry_spec g r₂ hf₂).1]
+    simp [hp.mem_iff]
+  · intro n
+    rw [build_idents_lookup, build_idents_lookup]
+    show Option.map _ (firstNode r₁ n) = Option.map _ (firstNode r₂ n)
+    have : firstNode r₁ n = firstNode r₂ n := by
+      cases c₁ : firstNode r₁ n with
+      | some nd =>
+        exact ((firstNode_iff r₂ hf₂ n nd).mpr (hp.mem_iff.mp ((firstNode_iff r₁ hf n nd).mp c₁))).symm
+      | none =>
+        cases c₂ : firstNode r₂ n with
+        | none => rfl
+        | some nd =>
+          have := (firstNode_iff r₁ hf n nd).mpr (hp.mem_iff.mpr ((firstNode_iff r₂ hf₂ n nd).mp c₂))
+          rw [c₁] at this; cases this
+    rw [this]
+  · intro h y
+    rw [build_subst, build_subst]
+    simp [hp.mem_iff]
+
+/-- globals declared once + functional identity registrations: a build from cleared maps reports nothing -/
+theorem registry_no_errors (g : Nat) (reqs : List Req) (hf : Functional reqs)
+    (hnd : (reqs.filterMap fun | .glob n => some n | _ => none).Nodup) :
+    (build g reqs Rebuild.empty).errors = [] :=
+  build_no_errors g reqs Rebuild.empty rfl (by intro n _; rfl) (by intro n node e _ h; cases h) hnd hf
+
+/-! #### every container that `clear()` empties has to be emptied (what the tie to the real objects watches) -/
+
+/-- If `clear()` left `maps.identities` alone, the entry of the previous build would win against the new
+    registration (same XSD node: no error is reported), and every keyref that resolves `refer` through the
+    registry would be bound to the object of the OLD generation … -/
+theorem stale_identity_survives (k : Keep) (hk : k.idents = true) (m : Maps) (g : Nat) (reqs : List Req)
+    (q : String) (e : Entry) (h : m.idents.lookup q = some e) :
+    (rebuild k g reqs m).idents.lookup q = some e ∧ Rebuild.resolve false g (rebuild k g reqs m) q = some e.gen := by
+  have h1 : (rebuild k g reqs m).idents.lookup q = some e := by
+    unfold rebuild
+    rw [(touch_fields g _).2.1, build_idents_lookup]
+    simp [clear, hk, h]
+  exact ⟨h1, by simp [Rebuild.resolve, h1]⟩
+
+/-- … whose counter no element of the new generation ever fills: every reference is reported. -/
+theorem stale_keyref_finds_nothing (b cur : Nat) (h : b ≠ cur) (keys refs : List String) :
+    notFound b cur keys refs = refs := by
+  simp [notFound, h]
+
+theorem stale_store_refuses (k : Keep) (hk : k.store = true) (m : Maps) (g : Nat) (reqs : List Req)
+    (n : String) (v : Nat) (h : m.store.lookup n = some v) (hd : .glob n ∈ reqs) :
+    n ∈ (rebuild k g reqs m).errors := by
+  unfold rebuild
+  rw [(touch_fields g _).2.2.2]
+  exact build_refuses_stored g reqs (clear k m) n v (by simp [clear, hk, h]) hd
+
+theorem stale_members_survive (k : Keep) (hk : k.subst = true) (m : Maps) (g : Nat) (reqs : List Req)
+    (h : String) (y : String × Nat) (hy : MemberOf m.subst h y) : MemberOf (rebuild k g reqs m).subst h y := by
+  unfold rebuild
+  rw [(touch_fields g _).2.2.1, build_subst]
+  exact Or.inl (by simpa [clear, hk] using hy)
+
+theorem stale_views_survive (k : Keep) (hk : k.views = true) (m : Maps) (g v : Nat) (reqs : List Req)
+    (h : m.views = some v) : (rebuild k g reqs m).views = some v := by
+  have hv : (build g reqs (clear k m)).views = some v := by rw [build_views]; simp [clear, hk, h]
+  unfold rebuild touch
+  rw [hv]
+  exact hv
+
+/-- the smallest witness (replayed on the real code by the harness: family `registry:identity/child`):
+    a key on a nested element, a keyref on its ancestor, built twice with identities not cleared -/
+theorem unclear_identities_counterexample :
+    let reqs := [Req.glob "e|idr", .ident "defKey" "main.xsd#7", .ident "useRef" "main.xsd#20"]
+    let m := run ⟨false, true, false, false⟩ [reqs, reqs]
+    Rebuild.resolve false 1 m "defKey" = some 0 ∧ notFound 0 1 ["a", "b"] ["a"] = ["a"] ∧
+    Rebuild.resolve false 1 (run faithful [reqs, reqs]) "defKey" = some 1 ∧ notFound 1 1 ["a", "b"] ["a"] = [] := by
+  decide
+
+example : Functional [Req.glob "e|idr", .ident "defKey" "main.xsd#7", .subst "e|h" "e|m", .ident "defKey" "main.xsd#7"] := by
+  intro n a b ha hb
+  simp at ha hb
+  rw [ha.2, hb.2]
+
+example : (run faithful [[.subst "h" "m"], [.subst "h" "m", .ident "k" "n"]]).subst = [("h", [("m", 1)])] := by decide
+example : (run ⟨false, false, true, false⟩ [[.subst "h" "m"], [.subst "h" "m"]]).subst = [("h", [("m", 0), ("m", 1)])] := by
+  decide
+example : (run ⟨true, false, false, false⟩ [[.glob "n|gif"], [.glob "n|gif"]]).errors = ["n|gif"] := by decide
+
+/-! #### shared components: constructors must not write to what they looked up (findings C09-F1, C09-F2) -/
+
+/-- **C09-F1, the witness** (replayed on the real code: REGISTRY_FAMILY[0] of harness/props/c09.py): with the
+    in-place union of /repo the wildcard that type `Other` ends up with depends on the build order. -/
+theorem shared_wildcard_inplace_counterexample :
+    ([Act.ext ["urn:y"], .other].foldl inPlace ⟨["urn:x"], []⟩).snaps = [["urn:x", "urn:y"]] ∧
+    ([Act.other, .ext ["urn:y"]].foldl inPlace ⟨["urn:x"], []⟩).snaps = [["urn:x"]] := by decide
+
+/-- Repaired constructor (union into a copy): whatever is built, in whatever order, the group's wildcard stays
+    what the group declares and every user snapshots exactly that. -/
+theorem shared_wildcard_copy_order_independent (ag : List String) (acts : List Act) :
+    (acts.foldl copied ⟨ag, []⟩).ag = ag ∧ ∀ w ∈ (acts.foldl copied ⟨ag, []⟩).snaps, w = ag := by
+  suffices h : ∀ (s : Shared), s.ag = ag → (∀ w ∈ s.snaps, w = ag) →
+      (acts.foldl copied s).ag = ag ∧ ∀ w ∈ (acts.foldl copied s).snaps, w = ag from
+    h ⟨ag, []⟩ rfl (by intro w hw; cases hw)
+  induction acts with
+  | nil => intro s h1 h2; exact ⟨h1, h2⟩
+  | cons a acts ih =>
+    intro s h1 h2
+    rw [List.foldl_cons]
+    apply ih
+    · cases a <;> simpa [copied] using h1
+    · cases a with
+      | ext b => simpa [copied] using h2
+      | other =>
+        intro w hw
+        simp only [copied, List.mem_append, List.mem_singleton] at hw
+        rcases hw with hw | hw
+        · exact h2 w hw
+        · rw [hw, h1]
+
+/-- **C09-F2, the witness**: the per-document test changes its answer when the declaration moves to an
+    included document (document 1) while the wildcard stays in document 0 … -/
+theorem defined_per_document_counterexample :
+    definedDoc (fun n => n == "ga") (fun _ => 0) 0 "ga" = true ∧
+    definedDoc (fun n => n == "ga") (fun n => if n == "ga" then 1 else 0) 0 "ga" = false := by decide
+
+/- … the repaired test (`definedNs`) takes the declarations and their namespaces only: a document assignment is
+   not among its arguments, so no split into included documents of one namespace can change its answer. -/
+
+end Rebuild
 
 /-! ### non-vacuity -/
 
